@@ -1,0 +1,30 @@
+//go:build verif
+
+package nats
+
+// VerifState returns the number of pending requests, how many of them have an
+// extended (pre-response) timer armed, and the length of the default timeout
+// queue. Read-only; used by the verification harness.
+func (c *Client) VerifState() (pending, extended, queued int) {
+	c.mu.Lock()
+	defer c.mu.Unlock()
+	for _, rc := range c.mqReqs {
+		if rc.isReq {
+			pending++
+			if rc.t != nil {
+				extended++
+			}
+		}
+	}
+	if c.tq != nil {
+		queued = c.tq.Len()
+	}
+	return
+}
+
+// VerifQueue returns the default timeout queue.
+func (c *Client) VerifQueue() interface{} {
+	c.mu.Lock()
+	defer c.mu.Unlock()
+	return c.tq
+}
